@@ -2,7 +2,7 @@
 import itertools
 
 import gen_lang
-from vlib import Case
+from vlib import Case, lang_lines
 
 RULE = ("ops `scan` (real scanner vs the Lean scanner model, token by token), `compile` (scan -> parse -> compile in-process under catch_unwind with a watchdog): "
         "bounded-exhaustive over all strings of length <= 3 (quick) / 4 (thorough) from a 31-character alphabet chosen to hit every scanner branch, all token sequences of "
@@ -27,7 +27,7 @@ def canon(s):
 
 
 def nontrivial(c):
-    return c.impl.startswith(("toks", "bc", "cerr", "perr"))
+    return c.impl.startswith(("toks", "bc", "cerr", "perr", "ok (prog"))
 
 
 def classify(c):
@@ -35,7 +35,8 @@ def classify(c):
 
 
 def model_skip(c):
-    return not c.line.startswith("scan ")
+    # `scan`: scanner model; `pprog`: program-level Pratt-parser model (lean/P2sh/Model/Parser.lean, Props/C01Parse.lean)
+    return not c.line.startswith(("scan ", "pprog "))
 
 
 def mutate(rng, src):
@@ -54,6 +55,105 @@ def mutate(rng, src):
         else:
             toks[i] = rng.choice(TOKENS)
     return " ".join(toks)
+
+
+# ---- op `pprog`: the program-level parser model against the real parser (statement list or "an error was reported")
+PP_ATOMS = ["1", "2", "x", "y", "f", "true", "false"]
+PP_BIN = ["+", "-", "*", "<", "==", "&&", "||", "|", "<<"]
+PP_TOKENS = PP_ATOMS + PP_BIN + ["(", ")", "[", "]", "{", "}", ",", ";", "=", "!", "-", "let", "return", "while", "loop", "break", "continue", "fn", "if", "else",
+                               "..", "lbl:", ":", "@", "null", "\n"]
+
+
+def pp_expr(rng, d):
+    if d <= 0 or rng.random() < 0.3:
+        return rng.choice(PP_ATOMS)
+    r = rng.random()
+    if r < 0.35:
+        return f"{pp_expr(rng, d - 1)} {rng.choice(PP_BIN)} {pp_expr(rng, d - 1)}"
+    if r < 0.45:
+        return rng.choice(["!", "-"]) + pp_expr(rng, d - 1)
+    if r < 0.55:
+        return f"({pp_expr(rng, d - 1)})"
+    if r < 0.65:
+        return f"f({', '.join(pp_expr(rng, d - 1) for _ in range(rng.randint(0, 3)))})"
+    if r < 0.7:
+        return f"x[{pp_expr(rng, d - 1)}]"
+    if r < 0.78:
+        return f"x = {pp_expr(rng, d - 1)}"
+    if r < 0.9:
+        s = f"if {pp_expr(rng, d - 1)} {pp_block(rng, d - 1)}"
+        k = rng.random()
+        if k < 0.4:
+            s += f" else {pp_block(rng, d - 1)}"
+        elif k < 0.6:
+            s += f" else if {pp_expr(rng, d - 1)} {pp_block(rng, d - 1)} else {pp_block(rng, d - 1)}"
+        return s
+    return f"fn({', '.join(rng.sample(['a', 'b', 'c'], rng.randint(0, 3)))}) {pp_block(rng, d - 1)}"
+
+
+def pp_block(rng, d):
+    return "{ " + " ".join(pp_stmt(rng, d) for _ in range(rng.randint(0, 3))) + " }"
+
+
+def pp_stmt(rng, d):
+    r = rng.random()
+    semi = rng.choice([";", ";", "\n", ""])
+    if r < 0.2:
+        return f"let {rng.choice(['x', 'y', 'z'])} = {pp_expr(rng, d)}{semi}"
+    if r < 0.5:
+        return f"{pp_expr(rng, d)}{semi}"
+    if r < 0.58:
+        return f"return {pp_expr(rng, d)}{semi}" if rng.random() < 0.7 else f"return{rng.choice([';', ''])}"
+    if r < 0.68:
+        return f"while {pp_expr(rng, d - 1)} {pp_block(rng, d - 1)}"
+    if r < 0.73:
+        return f"loop {pp_block(rng, d - 1)}"
+    if r < 0.8:
+        return rng.choice(["break", "continue"]) + rng.choice(["", " lbl"]) + rng.choice([";", ""])
+    if r < 0.9:
+        return f"fn {rng.choice(['g', 'h'])}({', '.join(rng.sample(['a', 'b', 'c'], rng.randint(0, 3)))}) {pp_block(rng, d - 1)}"
+    return pp_block(rng, d - 1)
+
+
+def pp_program(rng):
+    return "\n".join(pp_stmt(rng, rng.choice([1, 2, 2, 3])) for _ in range(rng.randint(1, 4)))
+
+
+PP_FIXED = ["", ";", "let x = 1", "let x = 1;", "let = 1", "let x 1", "let x =", "let x = ;", "return", "return;", "return 1", "return }", "{ }", "{", "}", "{ 1", "{ 1 }", "{ { } }",
+            "while x { }", "while { }", "while x", "while x 1", "loop { break; }", "loop", "loop 1", "break", "break lbl;", "continue;", "continue lbl", "break 1",
+            "fn g() { }", "fn g(a, b) { return a + b; }", "fn g(a,) { }", "fn g(1) { }", "fn g( { }", "fn g() 1", "fn g", "fn() { }", "fn(a) { a }", "fn(a) { a }(1)", "let h = fn(a, b) { a };",
+            "fn", "fn(", "fn()", "fn() {", "if x { }", "if x { 1 } else { 2 }", "if x { 1 } else if y { 2 }", "if x { 1 } else if y { 2 } else { 3 }", "if x { } else 5", "if x 1", "if { }",
+            "if x { 1 } + 2", "1 + if x { 1 } else { 2 }", "if x { 1 } else { 2 } = 3", "x = if y { 1 }", "if x { let y = 1; y }", "if x {", "if x { 1", "if x { 1 } else {", "if x { 1 } else",
+            "let f = fn(x) { if x { return 1; } 2 };", "while x < 3 { x = x + 1; }", "1; 2; 3", "1 2", "x y", "let x = 1 let y = 2", "lbl: while x { }", "lbl: 1", "@ x { }", "x: 1",
+            "a ! b", "a ~ b", "1 true", "let x = fn() { };\nx()", "if (x) { y }", "if x == 1 { y } else { z }", "{ x = 1 }", "fn g() { fn h() { } }", "let let = 1", "return return", "return 1 2"]
+
+
+def pprog_cases(ctx, programs):
+    rng = ctx.rng
+    srcs, tags = [], []
+    for s in PP_FIXED:
+        srcs.append(s); tags.append("pp-fixed")
+    n = ctx.scale(2500, 80000)
+    for _ in range(n):
+        srcs.append(pp_program(rng)); tags.append("pp-program")
+    for _ in range(n):
+        srcs.append(" ".join(rng.choice(PP_TOKENS) for _ in range(rng.randint(1, 10)))); tags.append("pp-soup")
+    for _ in range(n):
+        toks = pp_program(rng).replace("\n", " \n ").split(" ")
+        i = rng.randrange(len(toks))
+        r = rng.random()
+        if r < 0.35:
+            del toks[i]
+        elif r < 0.7:
+            toks[i] = rng.choice(PP_TOKENS)
+        else:
+            toks.insert(i, rng.choice(PP_TOKENS))
+        srcs.append(" ".join(toks)); tags.append("pp-mutant")
+    for p in programs[:ctx.scale(300, 5000)]:
+        srcs.append(p); tags.append("pp-lang")
+    keep = [(s, t) for s, t in zip(srcs, tags) if s.strip()]
+    lines = lang_lines(ctx, [s for s, _ in keep], op="pprog")
+    return [Case(l, (t,), extra={"src": s}) for l, (s, t) in zip(lines, keep)]
 
 
 def cases(ctx):
@@ -95,4 +195,4 @@ def cases(ctx):
             out.append(Case("compile " + hexs(o * d + "1" + c * d), ("nesting",)))
             out.append(Case("compile " + hexs(o * d + "1" + c * (d - 1)), ("nesting",)))
             out.append(Case("compile " + hexs(o * d), ("nesting",)))
-    return out
+    return out + pprog_cases(ctx, progs)
